@@ -130,3 +130,14 @@ Theorem C12_flag_on_equals_parser_without_guards :
   run K toks verbose use_cache (unguard_module M) aeval exact_types token_dict fuel n st.
 Proof. intros K toks verbose use_cache M aeval ex td fuel n st Hn Hi. exact (unguard_equiv K toks verbose use_cache M aeval ex td Hn fuel n st Hi). Qed.
 Print Assumptions C12_flag_on_equals_parser_without_guards.
+
+(* ... and with error mode off a *_without_invalid method switches nothing: the module with those marks removed computes
+   exactly the same, from every state whose flag is off (Proofs/ExecUnwi.v). *)
+From Pegen Require Import Proofs.ExecUnwi.
+Theorem C12_without_invalid_mark_inert_when_flag_off :
+  forall K toks verbose use_cache M aeval exact_types token_dict fuel n st,
+  invalid st = false ->
+  run K toks verbose use_cache M aeval exact_types token_dict fuel n st =
+  run K toks verbose use_cache (unwi_module M) aeval exact_types token_dict fuel n st.
+Proof. intros K toks verbose use_cache M aeval ex td fuel n st Hi. exact (unwi_equiv K toks verbose use_cache M aeval ex td fuel n st Hi). Qed.
+Print Assumptions C12_without_invalid_mark_inert_when_flag_off.
